@@ -26,10 +26,18 @@ CHECKS = {
             "Decides: no constructor builds a stack whose capacity is below its initial size (all integers), AddValue/RemoveTop guard exactly the full/empty states before touching storage, one end (slot 0 / index 1), views delegate, storage mutated only through the three gates. LIFO over histories is not decided.",
             "go/types of x/tools v0.29.0; spec tables in checker/c13.go; relies on the list's own correctness (C01)",
             "DESIGN.md 5/C13"),
+    "C14": ("static analysis: effect signatures (read/write/delete/clear sets with parameter identity) of every method on the receiver's Go map, SSA freshness of constructor results, provenance patterns for per-entry stores and views, loop forms",
+            "Decides that each method of the map type is the direct wrapper of the Go map operation it documents (exact effect set, value returned is the value read, len-based size), that constructors copy entry by entry into a map made in the call (every entry stored, so the last wins), and that views are built from the ranged entry. Equivalence over histories then rests on the language's map semantics.",
+            "go/types, go/ssa, go/cfg of x/tools v0.29.0; Go map semantics",
+            "DESIGN.md 5/C14"),
     "C17": ("static analysis: octagon abstract interpretation of every iterator method against the cursor transition table under the inductive invariant 0<=slot<=size (SYM), SSA freshness summaries for the snapshot (FLOW), type-graph reachability (EFFECT)",
             "Decides the per-method transition relation of the cursor for all integers (slot, size, argument), in-bounds element access, preservation of the invariant, immutability of the snapshot fields, freshness of the array handed to every iterator, and that no iterator is reachable from shared state. Content of the snapshot is not decided.",
             "go/types, go/ssa of x/tools v0.29.0; spec tables in checker/c17.go",
             "DESIGN.md 5/C17"),
+    "C18": ("static analysis: interprocedural SSA value-flow summaries (retains / returns-alias / fresh) to a fixpoint over the call graph with class-hierarchy resolution of repository interfaces (FLOW), plus an operand-discipline rule on the syntax tree",
+            "Decides for every exported entry point of the collection package: slice/map arguments do not flow into retained storage or results; slice/map/collection results are allocated in the call and carry no storage of receiver or arguments; bulk operands are read only through snapshot accessors. Element-level pointer sharing is outside the property.",
+            "go/ssa of x/tools v0.29.0; standard-library callees assumed not to retain slices",
+            "DESIGN.md 5/C18"),
     "C19": ("static analysis: lock-region must-analysis on go/cfg for the class registries, post-construction write sets and type-graph reachability from shared roots (package-level variables, class-struct fields, bound receivers and captures of stored function values) (EFFECT)",
             "Decides race-freedom preconditions for distinct instances: registries accessed only under one mutex in a single get-or-create region, no unsynchronised mutable object reachable from state shared by all instances of a type, package-level variables write-once. Equivalence of concurrent and sequential results is not decided.",
             "go/types, go/cfg of x/tools v0.29.0; Go memory model; allow-list: sync.*, *regexp.Regexp",
